@@ -8,7 +8,8 @@ package lib
 //	                                               "ok <dump>" | "strpanic <dump>" | "err <n>" | "panic"
 //	c03s <T> <dialect> <ver1>:<hex1> ... <verN>:<hexN>   ONE receiver parses every body in order; answer of the last
 //	                                               (String() is not run here)
-//	c03t <T> <ver> <dialect> <hex> <tailhex>       implementation only: the body followed by <tail> in the same array
+//	c03t <T> <ver> <dialect> <hex> <tailhex>       the body followed by <tail> in the same array (cap = len + len tail);
+//	                                               the model side is Model/Total_cap.v (spare-capacity primitives)
 //	c03fseq <frame1> ... <frameN>                  ONE JTMessage decodes every frame; answer of the last (as op decode)
 //	c03ft <frame> <tailhex>                        implementation only: frame followed by tail in the same array
 //	c03rtp <hex> | c03rseq <hex1> ... <hexN>       jt1078 Decode, fresh / ONE reused Packet (answer of the last)
